@@ -6,7 +6,7 @@ wait / exit) for Engine I.
 
 Nothing here looks at line numbers or source text to decide anything.
 """
-from .interp import Interp, Obj, Sym, Arr, NoReturn, _Ref, _UNINIT, _FnRef
+from .interp import Interp, Obj, Sym, Arr, NoReturn, _Ref, _UNINIT, _FnRef, View
 from .build import AnalysisBroken
 
 
@@ -1088,3 +1088,172 @@ def string_models():
 
 
 STRING_FNS = tuple(sorted(string_models()))
+
+
+# ------------------------------------------------------------------ stdio stream model ---
+# A FILE as ISO C describes it, as far as failures go: an end-of-file flag, an error flag, data that may still sit in the
+# buffer of an output stream.  What the ENVIRONMENT decides is forked: every read delivers data, ends the file or fails (with a
+# zero or - fread - a short count); the flush of buffered output (fflush, else the one inside fclose) succeeds or fails; a write
+# that happened before the stream is first examined may have failed already (error flag set, later flushes succeed).  What the
+# PROGRAM can observe is then deterministic: ferror/feof give the flags, a read after end/error gives "no data".
+# State: proc_state(ctx)['streams'][id(stream value)] = record; proc_state(ctx)['stream_log'] = list of records in creation order.
+READ_RESULT = {  # name -> (index of the stream argument, kind)
+    'fread': (3, 'count'), 'fread_unlocked': (3, 'count'), 'fgets': (2, 'buffer'), 'fgets_unlocked': (2, 'buffer'),
+    'fgetc': (0, 'char'), 'getc': (0, 'char'), 'getc_unlocked': (0, 'char'), 'fgetc_unlocked': (0, 'char'),
+    'getline': (2, 'length'), 'getdelim': (3, 'length')}
+STD_STREAMS = {'stdin': 'r', 'stdout': 'w', 'stderr': 'w'}
+
+
+def std_stream_globals():
+    return dict((nm, (lambda n_: (lambda ctx: Obj(None, lazy=True, label='g:' + n_)))(nm)) for nm in STD_STREAMS)
+
+
+def streams_of(ctx):
+    return proc_state(ctx).setdefault('stream_log', [])
+
+
+def stream_models(data_reads=2, open_fails=True):
+    def table(ctx):
+        return proc_state(ctx).setdefault('streams', {})
+
+    def new_rec(ctx, v, kind, origin, line=None):
+        rec = {'kind': kind, 'origin': origin, 'err': False, 'eof': False, 'reads': 0, 'dirty': kind == 'w', 'closed': False,
+               'early': None, 'wfail': None, 'rfail': None, 'value': v, 'line': line, 'event': None, 'std': origin in STD_STREAMS}
+        table(ctx)[id(v)] = rec
+        streams_of(ctx).append(rec)
+        return rec
+
+    def rec_of(it, ctx, v, want=None):
+        """record of the stream value v; standard streams and streams that come from outside the explored code (parameters)
+        are entered on first use, with the direction of that use"""
+        if isinstance(v, View):
+            v = it.settle(v)
+        if not isinstance(v, Obj):
+            return None
+        rec = table(ctx).get(id(v))
+        if rec is None:
+            lab = (v.label or '')
+            if lab.startswith('g:') and lab[2:] in STD_STREAMS:
+                rec = new_rec(ctx, v, STD_STREAMS[lab[2:]], lab[2:])
+        return rec
+
+    def m_fopen(it, ctx, n, args):
+        name = n.callee()
+        mode = cstr(args[1]) if len(args) > 1 else None
+        if mode is None:
+            return _opaque_call(it, ctx, n, args)
+        kind = 'w' if (mode[:1] in ('w', 'a') or '+' in mode) else 'r'
+        if open_fails and ctx.choose(2, name) == 1:
+            proc_state(ctx)['open_failed'] = True
+            ctx.note('%s(%s) fails' % (name, mode))
+            ctx.emit('call', name, args, n.line, 0)
+            return 0
+        s = Obj(None, lazy=True, label=ctx.fresh('stream'))
+        rec = new_rec(ctx, s, kind, name, n.line)
+        ctx.emit('call', name, args, n.line, s)
+        rec['event'] = ctx.events[-1]
+        return s
+
+    def m_read(it, ctx, n, args):
+        name = n.callee()
+        idx, kind = READ_RESULT[name]
+        rec = rec_of(it, ctx, args[idx], 'r') if len(args) > idx else None
+        if rec is None:
+            return _opaque_call(it, ctx, n, args)
+        end = {'count': 0, 'buffer': 0, 'char': -1, 'length': -1}[kind]
+        if rec['eof'] or rec['err'] or rec['closed']:
+            return end
+        full = {'count': args[2] if len(args) > 2 else 1, 'buffer': args[0], 'char': 97, 'length': 5}[kind]
+        opts = []
+        if rec['reads'] < data_reads:
+            opts.append('data')
+        if kind == 'count' and isinstance(full, int) and not isinstance(full, bool) and full > 1:
+            opts += ['short-count-end', 'short-count-error']
+        opts += ['end', 'zero-count-error' if kind == 'count' else 'error']
+        o = opts[ctx.choose(len(opts), name)]
+        rec['reads'] += 1
+        if o == 'data':
+            ctx.note('%s() delivers data' % name)
+            return full
+        if o.endswith('error'):
+            rec['err'] = True
+            rec['rfail'] = (name, 'short-count' if o.startswith('short') else ('zero-count' if kind == 'count' else 'no-data'), n.line)
+            ctx.note('%s() FAILS (%s, error flag set)' % (name, 'after some bytes' if o.startswith('short') else 'nothing read'))
+        else:
+            rec['eof'] = True
+            ctx.note('%s() reaches end of file%s' % (name, ' after some bytes' if o.startswith('short') else ''))
+        return 1 if o.startswith('short') else end
+
+    def first_look(it, ctx, rec):
+        # a write that happened before the program first asks about the stream may have failed already
+        if rec['kind'] == 'w' and rec['early'] is None:
+            rec['early'] = ctx.choose(2, 'earlier write') == 1
+            if rec['early']:
+                rec['err'] = True
+                rec['wfail'] = 'earlier-write'
+                ctx.note('an earlier write to the stream failed (error flag set; what is left in the buffer can still be flushed)')
+
+    def m_ferror(it, ctx, n, args):
+        rec = rec_of(it, ctx, args[0], None) if args else None
+        if rec is None:
+            # a stream the model does not follow (memory stream, stream from outside): it may have failed, and a path on which it
+            # did is not a path on which everything went well
+            if ctx.choose(2, n.callee()) == 1:
+                proc_state(ctx)['other_stream_failed'] = True
+                ctx.note('%s()!=0 on a stream that is not followed' % n.callee())
+                return 1
+            return 0
+        first_look(it, ctx, rec)
+        return 1 if rec['err'] else 0
+
+    def m_feof(it, ctx, n, args):
+        rec = rec_of(it, ctx, args[0], None) if args else None
+        if rec is None:
+            return _opaque_call(it, ctx, n, args)
+        return 1 if rec['eof'] else 0
+
+    def m_clearerr(it, ctx, n, args):
+        rec = rec_of(it, ctx, args[0], None) if args else None
+        if rec is not None:
+            rec['err'] = rec['eof'] = False
+            rec['cleared'] = True
+        return None
+
+    def m_fflush(it, ctx, n, args):
+        rec = rec_of(it, ctx, args[0], None) if args else None
+        if rec is None or rec['kind'] != 'w':
+            return 0
+        first_look(it, ctx, rec)
+        if rec['dirty'] and not rec['early']:
+            rec['dirty'] = False
+            if ctx.choose(2, 'fflush') == 1:
+                rec['err'] = True
+                rec['wfail'] = 'fflush'
+                ctx.note('fflush() FAILS (buffered data could not be written)')
+                return -1
+        rec['dirty'] = False
+        return 0
+
+    def m_fclose(it, ctx, n, args):
+        rec = rec_of(it, ctx, args[0], None) if args else None
+        if rec is None:
+            return 0
+        if rec['kind'] == 'w' and not rec['closed']:
+            first_look(it, ctx, rec)
+            rec['closed'] = True
+            if rec['dirty'] and not rec['early']:
+                rec['dirty'] = False
+                if ctx.choose(2, 'fclose') == 1:
+                    rec['wfail'] = 'fclose'
+                    ctx.note('fclose() FAILS (the data still in the buffer could not be written)')
+                    return -1
+            rec['dirty'] = False
+            return 0
+        rec['closed'] = True
+        return 0
+
+    m = {'fopen': m_fopen, 'fopen64': m_fopen, 'ferror': m_ferror, 'ferror_unlocked': m_ferror, 'feof': m_feof, 'feof_unlocked': m_feof,
+         'clearerr': m_clearerr, 'clearerr_unlocked': m_clearerr, 'fflush': m_fflush, 'fflush_unlocked': m_fflush, 'fclose': m_fclose}
+    for f in READ_RESULT:
+        m[f] = m_read
+    return m
